@@ -37,7 +37,16 @@ func vfGenC07Session(t *rapid.T) vfCaseC07 {
 	c.Sync = []vfReq{{T: "OPEN", P: 0, Pflags: 1}, {T: "OPEN", P: 13, Pflags: 1}, {T: "OPEN", P: 8, Pflags: 0x1a}, {T: "OPENDIR", P: 1}}
 	ns := rapid.IntRange(0, 3).Draw(t, "nsync")
 	for i := 0; i < ns; i++ {
-		c.Sync = append(c.Sync, vfGenReq(t, []string{"STAT", "MKDIR", "READDIR", "OPEN", "CLOSE", "SETSTAT", "RENAME"}))
+		r := vfGenReq(t, []string{"STAT", "MKDIR", "READDIR", "OPEN", "CLOSE", "SETSTAT", "RENAME"})
+		if r.T == "RENAME" {
+			// never move a file into (or out of) the directory the tail lists: the write handle follows its
+			// file, and a WRITE racing with the READDIR would make the listed size a matter of scheduling
+			inDir := func(p int) bool { return p == 1 || p == 2 || p == 3 || p == 10 || p == 12 || p == 13 }
+			if inDir(r.P) || inDir(r.P2) {
+				r.P, r.P2 = 4, 9
+			}
+		}
+		c.Sync = append(c.Sync, r)
 	}
 	tail := vfGenC18(t) // conflict-free burst grammar
 	n := rapid.IntRange(1, 8).Draw(t, "ntail")
